@@ -16,6 +16,16 @@ theorem sliceOK_from {α : Type} (l : List α) (i : Nat) (h : i ≤ l.length) :
     sliceOK (len l) (i : Int) (len l) = true := by
   simp [sliceOK, len]; omega
 
+theorem idxOK_zero_nil {α : Type} : idxOK (len ([] : List α)) 0 = false := by simp [idxOK, len]
+theorem idxOK_zero_cons {α : Type} (a : α) (l : List α) : idxOK (len (a :: l)) 0 = true := by
+  simp [idxOK, len]
+theorem sliceOK_one_cons {α : Type} (a : α) (l : List α) : sliceOK (len (a :: l)) 1 (len (a :: l)) = true := by
+  have := sliceOK_from (a :: l) 1 (by simp)
+  simpa using this
+theorem at_zero_cons {α : Type} [Inhabited α] (a : α) (l : List α) : Go.at (a :: l) 0 = a := by simp [Go.at]
+theorem slice_one_cons {α : Type} (a : α) (l : List α) : slice (a :: l) 1 (len (a :: l)) = l := by
+  simp [slice, len]
+
 /-- a `range` loop that stores `f x` at the loop index into a slice of the same length computes
     `map f` and never indexes out of range -/
 theorem forRangeFrom_set_map {α β ρ : Type} (f : α → β) (xs : List α) (pre : List β) (rest : List β)
